@@ -191,3 +191,14 @@ def nontrivial(case, obs):
 
 def shrink(case):
     return L.shrink_files(case)
+
+
+# end-to-end composition (integrator): conv_full (coq/Conv/Full.v) threads the permutation, flip bit and final affine that
+# the geometry half computes into the embed step exactly as DicomStack.to_nifti does; theorems in Props/C12full.v
+from props import convfull as _convfull
+COQ_PROPS = (list(COQ_PROPS) if isinstance(COQ_PROPS, (list, tuple)) else [COQ_PROPS]) + ['Props/C12full.v']
+THEOREMS = list(THEOREMS) + ['C12_full_dependency', 'C12_full_history', 'C12_full_fresh', 'C12_full_resorted']
+COQ_EXTRA_TARGETS = list(globals().get('COQ_EXTRA_TARGETS') or []) + ['Conv/FullCorr.vo']
+TABLES = sorted(set(list(globals().get('TABLES') or []) + ['t_classes', 't_ext_tol', 't_stack', 't_filter', 't_time', 't_conv']))
+import sys as _sys
+PARTS = [_sys.modules[__name__], _convfull.FullPart]
